@@ -14,9 +14,14 @@ def gen_wide(rng):
     """Blobs whose index file has several leaves (more than 4096 / (57 + K) headers), most keys with two or three
     versions (ties and deletion markers among them), so that the versions of some keys straddle leaf boundaries; every
     key is read while the index is in memory, after the blob was closed and its index dumped, and after a restart."""
-    K = rng.choice([4, 4, 8, 32])
+    K = rng.choice([4, 4, 8, 32, 503, 503, 138])
     per = 4096 // (57 + K)
     nkeys = rng.choice([per // 2 + 3, per - 5, per + 7, 2 * per - 3])
+    if K >= 138:
+        # long keys: a completely filled inner node of the index file (fan-out 8 for 503-byte keys, 28 for 138-byte keys,
+        # where a full node ends exactly at the end of its 4 KiB block) and one leaf more
+        fan = (4096 - 16) // (K + 8) + 1
+        nkeys = rng.choice([per * fan // 2 + 1, per * fan // 2 + per, per * (fan + 1) // 2 + 3])
     L = ['cfg K=%d dup=1 group=%d bloom=%s init=%s runtime=%s' % (K, rng.choice([2, 8]), 'none', rng.choice(['eager', 'lazy']), rng.choice(['mt', 'ct'])), 'open']
     keys = [(i * 3 + 1).to_bytes(K, 'big').hex() for i in range(nkeys)]
     seed = 0
